@@ -192,6 +192,7 @@ def run(ctx, rep):
     rep.rule("C17.types", "every token the type printer emits is accepted by the type parser")
     rep.rule("C17.names", "generated names lex as symbols, cannot clash with user names, and every referenced node is printed")
     rep.rule("C17.rec", "parser recursion is reviewed")
+    rep.rule("C17.entropy", "the parser's length guards on a fail literal admit the 512 bits the printer writes")
 
     toks = token_table(F)
     if not toks:
@@ -240,6 +241,58 @@ def run(ctx, rep):
                     if len(si[2]) <= 2 and v in ("Disconnect", "AssertL"):
                         suffix.setdefault(v, []).append(c)
 
+    # ---- the fail literal: the printer writes the whole FailEntropy (64 bytes = 512 bits, `fail 0x<128 hex digits>`); both
+    # length guards of the parser (too little / too much entropy) must let exactly that length through
+    pe0 = [f for f in F.fns.values() if f.path.startswith(AST + "parse_expr") and f.kind == "Fn"]
+    if len(pe0) == 1:
+        fe = F.inlined(pe0[0], ("parse_literal",))
+        Te = Terms(fe)
+        ent = F.adts.get("simplicity::FailEntropy") or next((a for p_, a in F.adts.items() if p_.endswith("::FailEntropy")), None)
+        nbits = None
+        if ent is not None:
+            m_ = re.search(r"\[u8; (\d+)\]", ent["variants"][0]["fields"][0]["ty"]) if ent["variants"] and ent["variants"][0]["fields"] else None
+            nbits = 8 * int(m_.group(1)) if m_ else None
+        if nbits is None:
+            rep.anchor("C17.entropy", "FailEntropy([u8; N])")
+        else:
+            idom = fe.idom()
+            n_g = 0
+            for b in fe.rpo():
+                for st in fe.blocks[b]["s"]:
+                    if not (st[0] == "=" and st[2].get("k") == "agg" and st[2].get("variant") in ("EntropyTooMuch", "EntropyInsufficient")
+                            and str(st[2].get("adt", "")).endswith("human_encoding::error::Error")):
+                        continue
+                    x, sw = b, None
+                    while x in idom and idom[x] != x and sw is None:
+                        x = idom[x]
+                        if fe.blocks[x]["t"]["k"] == "switch":
+                            sw = x
+                    if sw is None:
+                        continue
+                    t = fe.blocks[sw]["t"]
+                    d = Te.operand(t["discr"])
+                    neg = 0
+                    while isinstance(d, tuple) and d[0] == "un" and d[1] == "Not":
+                        neg += 1
+                        d = d[2]
+                    if not (isinstance(d, tuple) and d[0] == "bin" and d[1] in ("Lt", "Le", "Gt", "Ge", "Eq", "Ne") and d[3][0] == "int"):
+                        rep.note("guard of Error::%s is not a comparison with a constant: not decided" % st[2]["variant"])
+                        continue
+                    c = d[3][1]
+                    val = {"Lt": nbits < c, "Le": nbits <= c, "Gt": nbits > c, "Ge": nbits >= c, "Eq": nbits == c, "Ne": nbits != c}[d[1]]
+                    if neg % 2:
+                        val = not val
+                    tg = [x_ for v_, x_ in t["targets"] if v_ == ("1" if val else "0")]
+                    taken = tg[0] if tg else t["otherwise"]
+                    n_g += 1
+                    key = "fail literal: %s guard at %d bits" % (st[2]["variant"], nbits)
+                    if b == taken or b in fe.dominated_by(taken):
+                        rep.violation("C17.entropy", st[2]["variant"], "the parser rejects a fail literal of %d bits with Error::%s (guard `len %s %d`), but "
+                                      "that is exactly what the printer writes for every fail node: rendered text does not parse again"
+                                      % (nbits, st[2]["variant"], d[1], c), "%s:%s" % (fe.file, st[3] if len(st) > 3 else fe.line))
+                    else:
+                        rep.ok("C17.entropy", key, "len %s %d is false" % (d[1], c))
+            rep.floor("C17.entropy", n_g, 2)
     # ---- parse_expr: Token variant -> Inner variant built
     pe = [f for f in F.fns.values() if f.path.startswith(AST + "parse_expr") and f.kind == "Fn"]
     built = {}
